@@ -191,6 +191,19 @@ class CoarseRecorder(_Base):
         return np.column_stack([1 - p, p])
 
 
+class SteppedRecorder(LinearRecorder):
+    """Learns like the linear recorder but returns a two-level decision function: the best ceil(5n/9) rows of the scored
+    batch (by the learned raw score, which is free of ties) get 2, the rest 1.  Targets and decoys are then TIED inside
+    each level, so which targets the next training iteration may use is decided by the tie clause of the q-value
+    definition (a tie group is accepted or rejected as a whole)."""
+
+    def _score(self, X, phase):
+        raw = self._raw(X)
+        k = -(-5 * len(raw) // 9)
+        rank = np.argsort(np.argsort(-raw, kind="stable"), kind="stable")
+        return np.where(rank < k, 2.0, 1.0)
+
+
 # Hyper-parameter search wrapper: Model.fit hands it the (shuffled) rows and labels once, before the training loop,
 # and then continues with the *inner* estimator - so what the search received is logged at module level.
 SEARCH_LOG = []
@@ -224,6 +237,7 @@ ESTIMATORS = {
     "overfit": OverfitRecorder,
     "halfoverfit": HalfOverfitRecorder,
     "coarse": CoarseRecorder,
+    "stepped": SteppedRecorder,
 }
 
 
